@@ -223,7 +223,8 @@ def static_contracts(reg, cls, impl_cls=None, help_=None):
                                 modifies=[], result='obj:' + cls, **help_.get('from_bytes', {}))))
     # constant-time modular multiplication used by RSA decryption: odd positive modulus, fixed-length big-endian result
     TM = help_.get('mult_operand', T)
-    out.append(reg.add(Contract(impl + '._mult_modulo_bytes', params={'term1': TM, 'term2': TM, 'modulus': TM},
+    TM = list(TM) if isinstance(TM, (list, tuple)) else [TM] * 3          # one kind for all three operands, or one per operand
+    out.append(reg.add(Contract(impl + '._mult_modulo_bytes', params={'term1': TM[0], 'term2': TM[1], 'modulus': TM[2]},
                                 raises={'ZeroDivisionError': ('iff', 'ival(modulus) == 0'),
                                         'ValueError': ('iff', 'ival(modulus) < 0 or (ival(modulus) > 0 and ival(modulus) % 2 == 0)')},
                                 ensures={'value': 'be(result) == (ival(term1) * ival(term2)) % ival(modulus)',
